@@ -18,6 +18,8 @@ CLAIMED['C08'] = ('Lean refinement proof: optimizer history model refines the pu
          'For every hyper-parameter setting, parameter count and history over {backward, zero_grad, step, freeze/unfreeze}: each parameter trajectory under SGD (momentum, dampening, Nesterov, weight decay, maximize), Adam, AdamW equals the left fold of the documented update over the effective gradients; frozen parameters fixed; parameters independent. The real optimizers are run on generated histories (several backward per step, steps without zero_grad, frozen parameters) and compared element-wise with the model after every event, plus in-place/dtype/shape flags.', '6 C08')
 CLAIMED['C13'] = ('Lean proof over the BatchNorm/Dropout history model + correspondence run with captured draws',
          'For every option setting and every history: eval forwards never change the layer state and normalise with the running statistics; a training forward advances the counter once and moves running mean / unbiased variance by the documented factor; closed forms of the exponential and cumulative averages; without tracking the batch statistics are always used; Dropout is the identity in eval, zeroes exactly the draws <= p and scales survivors by 1/(1-p), and its backward is the transpose through the same mask. Real layers are run on generated histories over the option grid; uniform draws are captured so the mask relation is exact.', '6 C13')
+CLAIMED['C15'] = ('Lean proof over the request model of nn/init.py + correspondence with captured generator arguments',
+         'Theorems: fan_in/fan_out formula and rank guard, gain table, and for each initialiser the (low, high | mean, std) handed to the generator equal the documented expressions (std itself, not std^2; gain/sqrt(fan); U(-1/sqrt(fan_in), 1/sqrt(fan_in)) for layers). The real initialisers and layer constructors run with np.random.uniform/normal wrapped: captured arguments must equal the model request and the tensor data must be the draw with the model parameters; identity, shape, dtype, requires_grad preserved.', '6 C15')
 PENDING = {}
 ALL = [f'C{i:02d}' for i in range(1, 21)]
 
